@@ -166,6 +166,19 @@ def check_ext(spec):
                 fails.append((f"field-lost:{key}{sub}", f"{spec}: {key} before {str(s1[key])[:200]} after {str(s2[key])[:200]}"))
                 break
     fails += owner_fails(e2, "loaded")
+    # definitions re-published under another extension (objects that already had an owner)
+    e3 = ext.Extension("c10.republished", ext.Version(9, 9, 9))
+    for od in list(e.operations.values()):
+        e3.add_op_def(od)
+    for td in list(e.types.values()):
+        e3.add_type_def(td)
+    fails += owner_fails(e3, "republished")
+    try:
+        e4 = ext.Extension.from_json(e3.to_json())
+        if norm_doc(json.loads(e4.to_json())) != norm_doc(json.loads(e3.to_json())):
+            fails.append(("document-changed:republished", f"{spec}: a re-published extension does not re-serialize to the same document"))
+    except Exception as ex:  # noqa: BLE001
+        fails.append((f"roundtrip-raised:republished:{type(ex).__name__}", f"{spec}: {str(ex)[:200]}"))
     return fails
 
 
